@@ -46,7 +46,7 @@ def sp(p, q):
 def gen_order2(rng, params, o1norm, o1arg):
     """returns (python order2 argument, normalised dict Pair(var,var) -> {param: coef}, auto flag) or None"""
     vars_ = sorted(o1norm)
-    form = rng.choice(["true", "str", "pairs", "pairs", "dict"])
+    form = rng.choice(["true", "str", "names", "pairs", "pairs", "dict"])
     if form == "true":
         # order2=True: pairs = PARAMETERS_ORDER2 (pairs of PARAMETER names used as variable names)
         if not all(v in params for v in vars_):
@@ -56,6 +56,11 @@ def gen_order2(rng, params, o1norm, o1arg):
     if form == "str":
         v = rng.choice(vars_)
         return v, {(v, v): {}}, True
+    if form == "names":
+        # a list of variable names: every combination of them, automatic cross derivatives stay on
+        names = [v for v in vars_ if rng.random() < 0.7] or [vars_[0]]
+        prs = sorted({sp(x, y) for x in names for y in names})
+        return list(names), {p: {} for p in prs}, True
     allv = vars_ + ["a", "b"]
     if form == "pairs":
         prs = set()
